@@ -636,7 +636,15 @@ def closing_hands_the_document_back_to_the_disk(F, res, rule="D13"):
         res.anchor_missing(rule, "the handler of DidCloseTextDocumentParams in Server")
         return
     d = FL.Defs(h)
-    is_read = lambda c: c.endswith("read_to_string") or c.endswith("fs::read") or c.endswith("read_source")
+    STORE_ = (VFS + "::set_path_content", S + "set_vfs_file_content")
+    readers_ = set()
+    for p_ in F.fns:
+        if p_.startswith(("glas::", "<glas::")) and F.fns[p_].blocks and "{closure" not in p_:
+            reach_ = [q for q in F.reachable_from([p_]) if q in F.fns]
+            called_ = {callee(t) or callee_def(t) or "" for q in reach_ for _b, t in F.fns[q].calls()}
+            if any(FL.short(c).endswith(("read_to_string", "fs::read")) for c in called_) and not any(c in STORE_ for c in called_):
+                readers_.add(FL.short(p_))
+    is_read = lambda c: c.endswith("read_to_string") or c.endswith("fs::read") or c in readers_
     removed = [FL.origin_key(d.origin_op(t["args"][1])) for b, t in h.calls()
                if FL.short(callee(t) or callee_def(t) or "").rsplit("::", 1)[-1] in ("remove", "swap_remove", "shift_remove") and len(t["args"]) > 1 and
                "opened_files" in {str(x) for x in FL.fields_feeding(F, h, d, t["args"][0], "Server")}]
@@ -650,6 +658,37 @@ def closing_hands_the_document_back_to_the_disk(F, res, rule="D13"):
         if c == VFS + "::remove_uri":
             forgets.append(FL.origin_key(d.origin_op(t["args"][1])))
     same = [k for k in stores if k is not None and k in removed]
+    # ... and only then: a close for a URI that was not among the open documents (another spelling of an open document's URI)
+    # must not replace anything. The store is gated by the answer of the removal (`remove(..).is_some()`, a match on it).
+    gated = []
+    for b, t in h.calls():
+        c = callee(t) or ""
+        if c in (VFS + "::set_path_content", S + "set_vfs_file_content") and len(t["args"]) >= 3:
+            ok_g = False
+            for g in FL.gates(F, h, [b], d):
+                ct = g.get("call_t")
+                o = g.get("origin") or {}
+                cands = []
+                if ct:
+                    cands.append(ct)
+                    if ct["args"]:
+                        o2 = d.origin_op(ct["args"][0])
+                        if o2.get("k") == "call":
+                            cands.append(o2["t"])
+                for cc in cands:
+                    if FL.short(callee(cc) or callee_def(cc) or "").rsplit("::", 1)[-1] in ("remove", "swap_remove", "shift_remove", "remove_entry") and \
+                            "opened_files" in {str(x) for x in FL.fields_feeding(F, h, d, cc["args"][0], "Server")}:
+                        ok_g = True
+                # `let was_open = remove(..).is_some(); if let (true, ..) = (was_open, ..)`: the tested value depends on the removal
+                if not ok_g and ct is None:
+                    sw = h.term(g["bb"]) if "bb" in g else None
+                    if sw and sw.get("k") == "switch":
+                        dep = FL.depends(F, h, d, sw["op"])
+                        if any(x.rsplit("::", 1)[-1] in ("remove", "swap_remove", "shift_remove") for x in dep["calls"]):
+                            ok_g = True
+            gated.append(ok_g)
+    res.ob(rule, "did-close/only-if-open", "the reload happens only when the closed URI was among the open documents (a close for anything else "
+           "replaces nothing)", bool(gated) and all(gated), where=h.loc(), how="stores gated by the removal's answer: %s" % gated)
     res.ob(rule, "did-close/reloads", "closing a document replaces the store's copy by the file on disk: the URI taken out of opened_files is stored "
            "again with a text read from disk", bool(removed) and bool(same), where=h.loc(),
            how="URIs taken out of opened_files: %d; disk texts stored: %d, for the same URI: %d; forgets the file when it is gone: %s" % (
